@@ -197,3 +197,52 @@ _add(Cond('series_sort_index_hierarchy', [(p, 'int') for p in ('o0', 'o1', 'o2',
         functions=['Series.sort_index', 'sort_index_for_order', 'IndexHierarchy._extract_iloc'],
         bounds='depth-2 hierarchical index of 3 distinct tuples in tree order, outer labels in 0..1, inner in 0..2',
         route='Series.sort_index on an IndexHierarchy: lexicographic by depth', timeout=300))
+
+
+# ---------------------------------------------------------------- sort_index / sort_columns with a key function of any returned form
+
+def body_sort_index_key(env, l0, l1, l2, kind, asc, target):
+    """key= returns a 1-D array, a 2-D array (one column per sort depth), an Index, or an IndexHierarchy whose depth
+    differs from the depth of the index being sorted: the order is lexicographic over ALL returned depths."""
+    from vf import rt
+    labs = [_conc(v, 0, 3) for v in (l0, l1, l2)]
+    kind, asc, target = _conc(kind, 0, 3), bool(asc), _conc(target, 0, 1)
+
+    def run():
+        sf = env.sf
+        xp = env.xp
+        two = lambda l: (l // 2, -l)     # noqa: E731  outer ties (0,1 | 2,3), inner decides, in DEcreasing label order
+
+        def key(ix):
+            vals = [int(v) for v in ix.values.tolist()]
+            if kind == 0:
+                return env.array([-v for v in vals], 'int64')
+            if kind == 1:
+                return env.array([list(two(v)) for v in vals], 'int64')
+            if kind == 2:
+                return sf.Index([-v for v in vals])
+            return sf.IndexHierarchy.from_labels([two(v) for v in vals])
+        sort_key = (lambda l: -l) if kind in (0, 2) else two
+        o = sorted(range(3), key=lambda i: sort_key(labs[i]))
+        if not asc:
+            o = o[::-1]
+        if target == 0:
+            s = sf.Series(env.array([7, 8, 9], 'int64'), index=labs, name='sn')
+            r = s.sort_index(ascending=asc, key=key)
+            got = [env.obs(r.index.values.tolist()), env.obs(r.values.tolist()), env.obs(r.name)]
+            exp = [[labs[i] for i in o], [7 + i for i in o], 'sn']
+        else:
+            f = sf.Frame.from_items(((l, env.array([10 * (c + 1), 10 * (c + 1) + 1], 'int64')) for c, l in enumerate(labs)), index=[100, 101], name='nm')
+            r = f.sort_columns(ascending=asc, key=key)
+            got = [env.obs(r.columns.values.tolist()), env.obs(r.values.tolist()), env.obs(r.index.values.tolist()), env.obs(r.name)]
+            exp = [[labs[i] for i in o], [[10 * (i + 1) + row for i in o] for row in range(2)], [100, 101], 'nm']
+        return got, exp
+    return rt.untraced(run)
+
+
+_add(Cond('sort_index_key_function_forms', [('l0', 'int'), ('l1', 'int'), ('l2', 'int'), ('kind', 'int'), ('asc', 'bool'), ('target', 'int')], body_sort_index_key,
+        ranges={'l0': (0, 3), 'l1': (0, 3), 'l2': (0, 3), 'kind': (0, 3), 'target': (0, 1)},
+        pre=['l0 != l1', 'l0 != l2', 'l1 != l2', 'not (l0 // 2 == l2 // 2 and l0 // 2 != l1 // 2)'],
+        functions=['sort_index_for_order'],
+        bounds='flat index of 3 distinct labels symbolic in 0..3 (outer-key groups kept together); key function returning a 1-D array / a 2-D array / an Index / a depth-2 IndexHierarchy (symbolic); ascending symbolic; Series.sort_index or Frame.sort_columns (symbolic)',
+        route='sort_index / sort_columns(key=callable): ordered lexicographically over every depth the key function returns; labels move with their values', timeout=300))
